@@ -66,6 +66,14 @@ let run_ord () =
                Hashtbl.replace classes c (1 + (try Hashtbl.find classes c with Not_found -> 0));
                if !dbl then (if m <> c then diverge ("model: double release ends as " ^ m) line);
                compare_state l caps line
+             | "dbla" :: _, c :: p :: bytes :: _ ->
+               (* an array release whose first node is on the free list *)
+               incr ops; incr dbls;
+               let r = o_dealloc_array !asserts true l (zi (int_of_string p)) (zi (int_of_string bytes)) in
+               let m = cls r in
+               Hashtbl.replace classes c (1 + (try Hashtbl.find classes c with Not_found -> 0));
+               if !dbl then (if m <> c then diverge ("model: double release of an array ends as " ^ m) line);
+               compare_state l caps line
              | "q" :: _, _ -> compare_state l caps line
              | _ -> ())
           | _ -> ())
